@@ -2299,6 +2299,11 @@ combo("R25-2-link-relaxed", ["C17"], "the inlined push links with a Relaxed CAS"
       [ed(QF, ".compare_exchange(RawShared::null(), new, Release, Relaxed, guard)", ".compare_exchange(RawShared::null(), new, Relaxed, Relaxed, guard)")],
       ["ORD-QUEUE"])
 
+mut("ok-twin-C19-8-cross-compare", "benign", [], "PartialEq / PartialOrd between Rc and Snapshot, both directions, by as_ref() (S-C19-8 with its null arm "
+    "corrected; the reverse eq written as `other == self`)", [{"patch": "selftest/twins/C19-8-cross-compare-correct.diff"}])
+mut("ok-twin-C10-8-nth", "benign", [], "NewRcIter::nth releasing min(n, remain) shares and subtracting the same (S-C10-8 corrected), size_hint, "
+    "ExactSizeIterator, FusedIterator", [{"patch": "selftest/twins/C10-8-nth-correct.diff"}])
+
 # behaviour-preserving refactorings written by sub-agents told to keep every interleaving's behaviour (selftest/refactors/)
 for f in sorted(glob.glob(os.path.join(HERE, "refactors", "*.diff"))):
     name = os.path.basename(f)[:-5]
